@@ -90,6 +90,11 @@ def check_fit_3d(ctx):
     if len(oc) != 1 or len(cc) != 1:
         ctx.undecided('ALG-7', 'kernel calls 3-D', where, 'expected one optimal_scaling and one chi_squared call, found %d/%d' % (len(oc), len(cc)))
         return
+    if tuple(oc[0].args['data'].dims) != (M, D, W) or tuple(cc[0].args['data'].dims) != (M, D, W):
+        # the rule reads the values the kernels are called with; a fit organised otherwise (one distance at a time, ...) is not read by it
+        ctx.undecided('ALG-7', 'kernel calls 3-D', where, 'the kernels are called on arrays over %s / %s, not on the whole (model, distance, filter) array this rule reads'
+                      % (oc[0].args['data'].dims, cc[0].args['data'].dims))
+        return
     R = oc[0].args['data'].poly
     F, L = sym('F', M, D, W), sym('L', W)
     for k in (1, 2, 3, 4):
